@@ -70,6 +70,10 @@ type Contract struct {
 	Assumes   []*Clause // assumptions at function entry beyond requires (listed in evidence)
 	AssumedPost []*Clause // postconditions assumed at call sites but not proved for the body (boundary; listed in evidence)
 	SafetyOff bool
+	Extern    bool
+	ParamNames []string // names for unnamed parameters of interface methods
+	ModAssumed bool // the modifies clause is assumed, not checked against the body
+	DeclPkg   string // package whose contract file declares an extern contract
 }
 
 type Define struct {
@@ -96,6 +100,7 @@ type ContractSet struct {
 	Funcs   map[string]*Contract // key: pkgpath + "::" + relname
 	Defines map[string]*Define   // key: pkgpath + "::" + name
 	Axioms  []*Axiom
+	NonNil  [][2]string // (package, type expression)
 	Errors  []string
 }
 
@@ -343,6 +348,11 @@ func (cs *ContractSet) parseFile(fset *token.FileSet, f *ast.File, pkgPath, file
 			case "func":
 				finish()
 				cur = &Contract{FuncName: rest, Pkg: pkgPath, Loops: map[int]*LoopSpec{}, Folds: map[int]*FoldSpec{}, NoSafety: map[string]string{}, File: fileName, Line: l.line}
+			case "extern":
+				// extern <import path> <function>: assumed contract of a library function
+				finish()
+				ep, en := cutWord(rest)
+				cur = &Contract{FuncName: en, Pkg: ep, Loops: map[int]*LoopSpec{}, Folds: map[int]*FoldSpec{}, NoSafety: map[string]string{}, File: fileName, Line: l.line, Trusted: "library function (assumed contract)", Extern: true, DeclPkg: pkgPath}
 			case "end":
 				finish()
 			case "define", "opaque":
@@ -355,6 +365,9 @@ func (cs *ContractSet) parseFile(fset *token.FileSet, f *ast.File, pkgPath, file
 				d.Pkg = pkgPath
 				d.Opaque = word == "opaque"
 				cs.Defines[pkgPath+"::"+d.Name] = d
+			case "nonnil-elems":
+				// element type invariant: slices of this pointer type never hold nil in bounds
+				cs.NonNil = append(cs.NonNil, [2]string{pkgPath, strings.TrimSpace(rest)})
 			case "axiom", "lemma":
 				i := strings.Index(rest, ":")
 				if i < 0 {
@@ -382,6 +395,10 @@ func (cs *ContractSet) parseFile(fset *token.FileSet, f *ast.File, pkgPath, file
 				switch word {
 				case "props":
 					cur.Props = strings.Fields(rest)
+				case "params":
+					for _, n := range strings.Split(rest, ",") {
+						cur.ParamNames = append(cur.ParamNames, strings.TrimSpace(n))
+					}
 				case "returns":
 					for _, n := range strings.Split(rest, ",") {
 						cur.Returns = append(cur.Returns, strings.TrimSpace(n))
@@ -402,8 +419,11 @@ func (cs *ContractSet) parseFile(fset *token.FileSet, f *ast.File, pkgPath, file
 					if c := mkClause(rest); c != nil {
 						cur.AssumedPost = append(cur.AssumedPost, c)
 					}
-				case "modifies":
+				case "modifies", "modifies-assumed":
 					cur.HasMod = true
+					if word == "modifies-assumed" {
+						cur.ModAssumed = true
+					}
 					for _, it := range splitTop(rest, ",") {
 						it = strings.TrimSpace(it)
 						if it == "" || it == "nothing" {
